@@ -1,6 +1,7 @@
 """C02 -- STAR files read back to the same blocks, columns, rows and values"""
 from .common import *
 from sa import apicompat
+from . import starsem as _sem
 
 TITLE = "STAR files read back to the same blocks, columns, rows and values"
 EXPLANATION = (
@@ -44,179 +45,188 @@ def _reorders(v_):
         or any(isinstance(x, ast.Slice) and x.step is not None for x in ast.walk(v_))
 
 
-class CommentWeakened(Exception):
-    def __init__(self, node):
-        super().__init__("comment character conditionally ordinary")
-        self.node = node
-
-
-class LinesDropped(Exception):
-    def __init__(self, node):
-        super().__init__("lines dropped")
-        self.node = node
-
-
 def tokenizer(prog):
     """the function that holds the tokenizer's code (Token.tokenize, or what it delegates to)"""
     return prog.implementation("starfileio.Token.tokenize")
 
 
+def _reading_order(prog, text):
+    """tokens of a text as the reader sees them (the tokenizer hands the queue over reversed; the parser takes from its end)"""
+    t = _sem.tokens_of(prog, text)
+    if isinstance(t, tuple) and t and t[0] == "raise":
+        return t
+    return t[::-1]
+
+
 def reader_constants(prog):
+    """the lexical constants of the reader, found by asking the tokenizer itself (followed on literal one-word texts): which single
+    character makes a word a label, which one starts a comment, which word is the loop keyword.  -> (constants, module, function)"""
+    import string
     m, fn = prog.func(tokenizer(prog))
-    consts = {"property": set(), "loop": set(), "comment": set(), "linesep": set()}
-    for n in ast.walk(fn):
-        if isinstance(n, ast.Compare) and len(n.ops) == 1 and isinstance(n.comparators[0], ast.Constant) \
-                and isinstance(n.comparators[0].value, str):
-            v = n.comparators[0].value
-            left = ast.unparse(n.left)
-            if isinstance(n.ops[0], (ast.Eq, ast.NotEq)):
-                if isinstance(n.left, ast.Subscript) and isinstance(n.left.slice, ast.Slice):
-                    consts["loop"].add(v)
-                elif isinstance(n.left, ast.Subscript):
-                    consts["property"].add(v)
-                elif isinstance(n.left, ast.Name):
-                    consts["comment"].add(v)
-        if isinstance(n, ast.Call) and isinstance(n.func, ast.Attribute) and n.func.attr == "split" and n.args \
-                and isinstance(n.args[0], ast.Constant):
-            consts["linesep"].add(n.args[0].value)
+    words = lambda text: [t for t in _reading_order(prog, text) if t[0] != "NEWLINE"]
+    prop = [ch for ch in string.punctuation if words(ch + "ab\n") == [("PROPERTY", ch + "ab")]]
+    com = [ch for ch in string.punctuation if words("x " + ch + "y\n") == [("LITERAL", "x"), ("COMMENT", "y")]]
+    # the loop keyword is a string constant of the reader: every one of them is tried as a one-word text
+    cands = set()
+    for q in prog.reachable([tokenizer(prog)]):
+        if q.startswith("starfileio."):
+            cands |= {n.value for n in ast.walk(prog.func(q)[1]) if isinstance(n, ast.Constant) and isinstance(n.value, str) and 1 < len(n.value) < 20
+                      and not any(ch.isspace() for ch in n.value)}
+    loop = [w for w in sorted(cands) if words(w + "\n") == [("LOOP", w)]]
+    consts = {"property": prop, "loop": loop, "comment": com}
     for k, v in consts.items():
         if len(v) != 1:
             raise Unsupported(f"tokenizer constant for {k} not unique: {sorted(v)}", fn)
-    # every line of the text reaches the tokenizer: the iterated sequence is the split itself, nothing sliced off it
-    splits = [n for n in ast.walk(fn) if isinstance(n, ast.Call) and isinstance(n.func, ast.Attribute) and n.func.attr in ("split", "splitlines")]
-    if len(splits) != 1:
-        raise Unsupported("line split of the tokenizer not unique", fn)
-    node = splits[0]
-    par = m.parents.get(node)
-    while isinstance(par, (ast.Subscript, ast.Call, ast.Starred)) and not isinstance(par, ast.stmt):
-        if isinstance(par, ast.Subscript) and par.value is node and isinstance(par.slice, ast.Slice) and (par.slice.lower is not None or par.slice.upper is not None
-                                                                                                       or par.slice.step is not None):
-            raise LinesDropped(par)
-        if isinstance(par, ast.Call) and not (isinstance(par.func, ast.Name) and par.func.id in ("enumerate", "list", "iter")):
-            break
-        node, par = par, m.parents.get(par)
-    # the comment character ends a token wherever it stands (labels may carry a glued `#n`): its test is a plain conjunct of the
-    # "character belongs to a token" condition, never weakened by an `or`
-    for n in ast.walk(fn):
-        if isinstance(n, ast.Compare) and len(n.ops) == 1 and isinstance(n.ops[0], (ast.NotEq, ast.Eq)) and isinstance(n.comparators[0], ast.Constant) \
-                and n.comparators[0].value in consts["comment"] and isinstance(n.left, ast.Name):
-            par = m.parents.get(n)
-            while isinstance(par, (ast.BoolOp, ast.UnaryOp)):
-                if isinstance(par, ast.BoolOp) and isinstance(par.op, ast.Or) and isinstance(n.ops[0], ast.NotEq):
-                    raise CommentWeakened(par)
-                par = m.parents.get(par)
-    uses_isspace = any(isinstance(n, ast.Attribute) and n.attr == "isspace" for n in ast.walk(fn))
-    if not uses_isspace:
-        raise Unsupported("tokenizer does not classify separators with str.isspace", fn)
-    return {k: next(iter(v)) for k, v in consts.items()}, m, fn
+    c = {k: v[0] for k, v in consts.items()}
+    two = _reading_order(prog, "a\nb\n")
+    if [t[0] for t in two][:4] != ["LITERAL", "NEWLINE", "LITERAL", "NEWLINE"]:
+        raise Unsupported("the tokenizer does not end a line at a line feed", fn)
+    c["linesep"] = "\n"
+    return c, m, fn
 
 
 def model_tokenize(text, c):
-    toks = []
-    for line in text.split(c["linesep"]):
-        first = None
-        for i, ch in enumerate(line):
-            if not ch.isspace() and ch != c["comment"]:
-                if first is None:
-                    first = i
-                continue
-            elif first is not None:
-                toks.append(_classify(line[first:i], c))
-                first = None
-            if ch == c["comment"]:
-                toks.append(("COMMENT", line[i + 1:].strip()))
-                break
-        else:
-            if first is not None:
-                toks.append(_classify(line[first:], c))
-            toks.append(("NEWLINE", None))
-            continue
-        toks.append(("NEWLINE", None))
-    return toks[:-1] if toks and toks[-1][0] == "NEWLINE" and not text.endswith(c["linesep"]) else toks[:-1]
+    t = _sem.ref_tokens(text, c)
+    return t[:-1]
 
 
-def _classify(s, c):
-    if s[0] == c["property"]:
-        return ("PROPERTY", s)
-    if s == c["loop"]:
-        return ("LOOP", s)
-    return ("LITERAL", s)
-
-
-def template(node):
-    """file.write argument -> list of ('lit', text) / ('hole', source, extra)"""
-    if isinstance(node, ast.Constant) and isinstance(node.value, str):
-        return [("lit", node.value)]
-    if isinstance(node, ast.JoinedStr):
-        out = []
-        for v in node.values:
-            if isinstance(v, ast.Constant):
-                out.append(("lit", v.value))
+def o26(ctx):
+    """the reader followed on literal texts (see spec/starsem.py): tokens of every probe text, blocks / labels / rows / comments of every
+    probe file, block selection by number, and the text Starfile.write produces read back by Starfile.read"""
+    prog = ctx.prog
+    tq = tokenizer(prog)
+    mt, ft = prog.func(tq)
+    mr, fr_ = prog.func(RD)
+    ctx.touched(tq, RD, "starfileio.Token.parse_columns", "starfileio.Token.parse_column", "starfileio.Token.parse_rows", "starfileio.Token.consume")
+    c, _, _ = reader_constants(prog)
+    ctx.count(1, {"reader constants (asked from the tokenizer)": c})
+    show = lambda toks: toks if isinstance(toks, tuple) else [t for t in toks][:8]
+    bad = []
+    probes = _sem.token_probes(c)
+    def lines_of(toks):
+        """the tokens line by line; empty lines and how many line ends follow each other carry no information for the parser"""
+        if isinstance(toks, tuple):
+            return toks
+        out, cur = [], []
+        for t in toks:
+            if t[0] == "NEWLINE":
+                if cur:
+                    out.append(cur)
+                cur = []
             else:
-                out.append(("hole", ast.unparse(v.value), None))
-        return out
-    if isinstance(node, ast.BinOp) and isinstance(node.op, ast.Add):
-        return template(node.left) + template(node.right)
-    if isinstance(node, ast.Call) and isinstance(node.func, ast.Attribute) and node.func.attr == "join" \
-            and isinstance(node.func.value, ast.Constant):
-        return [("hole", "<row cells>", node.func.value.value)]
-    return [("hole", ast.unparse(node), "?")]
+                cur.append(t)
+        return out + ([cur + [("NO LINE END", None)]] if cur else [])
 
-
-def _token_labels(ctx, c, cuts, ft, mt, src_):
-    """the label handed on by parse_column is the PROPERTY token's text minus exactly the property character (decided only when no other
-    finding of this obligation has changed the shape of these functions already)"""
-    def unknown(msg, node):
-        if not ctx.cur.findings:
-            raise Unsupported(msg, node)
-
-    mpc, fpc = ctx.prog.func("starfileio.Token.parse_column")
-    rets = [r_.value for r_ in ast.walk(fpc) if isinstance(r_, ast.Return) and r_.value is not None]
-    if len(rets) != 1:
-        return unknown("return of Token.parse_column not recognised", fpc)
-    rv = rets[0]
-    if isinstance(rv, ast.Name):  # returned through a temporary
-        d_ = [a_ for a_ in ast.walk(fpc) if isinstance(a_, ast.Assign) and any(isinstance(t_, ast.Name) and t_.id == rv.id for t_ in a_.targets)]
-        if len(d_) == 1:
-            rv = d_[0].value
-    k_strip = None
-    if isinstance(rv, ast.Attribute) and rv.attr == "value":
-        k_strip = 0
-    elif isinstance(rv, ast.Subscript) and isinstance(rv.value, ast.Attribute) and rv.value.attr == "value" and isinstance(rv.slice, ast.Slice) \
-            and rv.slice.upper is None and rv.slice.step is None and isinstance(rv.slice.lower, ast.Constant) and isinstance(rv.slice.lower.value, int):
-        k_strip = rv.slice.lower.value
-    if k_strip is None:
-        return unknown("label extraction in Token.parse_column not recognised", fpc)
-    for base_, lower_, n in cuts["PROPERTY"]:
-        first_var = sorted({s_[1] for s_ in cuts.get("LITERAL", [])})
-        if len(first_var) != 1:
-            break
-        off = 0 if lower_ == first_var[0] else 1 if lower_.replace(" ", "") == first_var[0] + "+1" else None
+    for text in probes:
+        got, want = _reading_order(prog, text), _sem.ref_tokens(text, c)
         ctx.count(1)
-        if off is None:
-            return unknown(f"start of the PROPERTY token text ({lower_}) not recognised", n)
-        if off + k_strip != len(c["property"]):
-            ctx.finding("starfileio.Token.parse_column", fpc, f"a label written as {c['property']}name must come back as 'name': this copy of the tokenizer "
-                        f"drops {off} and parse_column {k_strip} leading character(s) (together {off + k_strip}, the property prefix has {len(c['property'])})",
-                        fpc, mpc)
+        if lines_of(got) != lines_of(want):
+            bad.append((text, got, want))
+    if bad:
+        text, got, want = min(bad, key=lambda b_: len(b_[0]))
+        k_ = next((i for i, (g_, w_) in enumerate(zip(got, want)) if g_ != w_), min(len(got), len(want))) if not isinstance(got, tuple) else 0
+        ctx.finding(tq, ft, f"the text {text!r} is cut into {show(got)}; the format reads it as {show(want)} (first difference at token {k_}; "
+                    f"{len(bad)} of {len(probes)} probe texts differ: words end at blanks, tabs, the comment character and the end of the line, "
+                    "with or without a final line break; a word is a label iff it starts with the label prefix, the loop keyword iff it is "
+                    "exactly that word)", ft, mt, probes_differing=[b_[0] for b_ in bad[:8]])
+    # files
+    badr = []
+    rp = _sem.read_probes(c)
+    for label, text in rp:
+        try:
+            want = _sem.ref_read(text, c)
+        except _sem.ReadError as e:
+            want = {"raise": str(e)}
+        got = _sem.read_text(prog, text)
+        ctx.count(1, {"probe": label, "blocks": [(b_[0], b_[1], len(b_[2])) for b_ in got.get("blocks", [])]} if "blocks" in got else None)
+        if "raise" in want:
+            continue  # texts the format does not accept: what the reader does with them is not part of the statement
+        if got != want:
+            badr.append((label, text, got, want))
+    for label, text, got, want in badr[:3]:
+        if "raise" in got:
+            what = f"is rejected (raise at line {got['raise']} of {got.get('where')})"
+        else:
+            gb, wb = got["blocks"], want["blocks"]
+            what = (f"comes back as {len(gb)} block(s) instead of {len(wb)}" if len(gb) != len(wb) else
+                    "; ".join(f"block {g_[0]!r}: labels {g_[1]} rows {g_[2][:3]} instead of {w_[0]!r}: labels {w_[1]} rows {w_[2][:3]}"
+                              for g_, w_ in zip(gb, wb) if g_ != w_) or f"comments {got['comments']} instead of {want['comments']}")
+        ctx.finding(RD, fr_, f"a file with {label} {what}"[:600] + f" ({len(badr)} of {len(rp)} probe files differ)", fr_, mr, text=text[:200])
+    # one block picked by its number
+    two = next(t for l_, t in rp if l_ == "two blocks")
+    for k_, want in ((0, "data_optics"), (1, "data_particles")):
+        got = _sem.read_text(prog, two, data_id=k_)
+        ctx.count(1, {"data_id": k_, "picked": got})
+        if got.get("picked") != want:
+            ctx.finding(RD, fr_, f"Starfile.read(path, data_id={k_}) of a file with the blocks data_optics, data_particles hands back "
+                        f"{got.get('picked', got)!r}", fr_, mr)
+    # what the writer writes, read by the reader
+    m, fn = prog.func(WR)
+    COLS = ["rlnCoordinateX", "rlnImageName", "rlnClassNumber"]
+    CELLS = ((1.5, "tomo_a", 3), (-20.25, "TS_01/rec_001.mrc", 12), (1234567.891, "B", 0))
+    for number_columns, spec_, comments in ((True, "data_particles", None), (False, "data_particles", None), (True, "data_stopgap_motivelist", None),
+                                           (False, "data_stopgap_motivelist", None),
+                                           (True, "data_particles", Seq([Seq([K("written by a test"), K("twice")], "list")], "list"))):
+        text, node = _written_text(ctx, [(spec_, COLS)], number_columns, comments, [CELLS])
+        got = _sem.read_text(prog, text)
+        want_rows = [[format(a_, "g") if False else str(a_), b_, str(c_)] for a_, b_, c_ in CELLS]
+        ctx.count(1, {"number_columns": number_columns, "block": spec_, "read back": got.get("blocks", got)})
+        ok = "blocks" in got and len(got["blocks"]) == 1 and got["blocks"][0][0] == spec_ and got["blocks"][0][1] == COLS \
+            and len(got["blocks"][0][2]) == len(CELLS) \
+            and all(r_[1] == w_[1] and _same_number(r_[0], w_[0]) and _same_number(r_[2], w_[2]) for r_, w_ in zip(got["blocks"][0][2], want_rows))
+        if ok and comments is not None and got["comments"] != [["written by a test", "twice"]]:
+            ok = False
+        if not ok:
+            ctx.finding(WR, node, f"a table written with number_columns={number_columns} as block {spec_!r}"
+                        f"{' with comments' if comments is not None else ''} is read back by Starfile.read as "
+                        f"{got if 'raise' in got else [(b_[0], b_[1], b_[2][:3]) for b_ in got['blocks']]}"[:500]
+                        + f"{'; comments ' + str(got.get('comments')) if comments is not None and 'blocks' in got else ''}; written: labels {COLS}, "
+                        f"rows {want_rows}", node, m, text=text[:300])
+    # two blocks
+    text, node = _written_text(ctx, [("data_optics", ["grp", "apix"]), ("data_particles", COLS)], True, None, [(("opt1", 2.5),), CELLS[:2]])
+    got = _sem.read_text(prog, text)
+    ctx.count(1, {"two blocks read back": got.get("blocks", got)})
+    if "blocks" not in got or [(b_[0], b_[1], len(b_[2])) for b_ in got["blocks"]] != [("data_optics", ["grp", "apix"], 1), ("data_particles", COLS, 2)]:
+        ctx.finding(WR, node, f"two tables written as data_optics (1 row) and data_particles (2 rows) are read back as "
+                    f"{got if 'raise' in got else [(b_[0], b_[1], len(b_[2])) for b_ in got['blocks']]}", node, m, text=text[:300])
+
+
+def _same_number(a, b):
+    try:
+        return abs(float(a) - float(b)) <= 1e-6 * max(1.0, abs(float(b)))
+    except ValueError:
+        return a == b
+
+
+def _written_text(ctx, blocks, number_columns, comments, cells):
+    """the text Starfile.write hands to the file for tables with the given rows of cells (one list of rows per block)"""
+    m, fn = ctx.prog.func(WR)
+    pieces = _run_writer(ctx, WR, blocks, number_columns, comments)
+    var = [p_ for p_ in pieces if not p_[0]]
+    if len(var) != len(blocks):
+        raise Unsupported(f"Starfile.write: expected one row line per block depending on the cells, found {len(var)} variable pieces", fn)
+    text, k_ = "", 0
+    for p_ in pieces:
+        if p_[0]:
+            text += p_[1]
+            continue
+        cols = blocks[k_][1]
+        for row in cells[k_]:
+            try:
+                ln = tm.evaluate(p_[1], dict(zip([f"cell{k_}:{x}" for x in cols], row)))
+            except tm.EvalError as e:
+                raise Unsupported(f"row line of Starfile.write uses an operation the term evaluator does not interpret: {e}", p_[2])
+            if not isinstance(ln, str):
+                raise Unsupported("row line of Starfile.write is not a string expression", p_[2])
+            text += ln
+        k_ += 1
+    return text, var[0][2]
 
 
 def o22(ctx):
-    try:
-        c, mt, ft = reader_constants(ctx.prog)
-    except CommentWeakened as e:
-        mt, ft = ctx.prog.func(tokenizer(ctx.prog))
-        ctx.count(1)
-        ctx.finding("starfileio.Token.tokenize", e.node, "the comment character is treated as an ordinary character under some condition: a label "
-                    "written with its numbering comment glued on (`_rlnCoordinateX#1`) is then read as a column named with the comment", e.node, mt)
-        return
-    except LinesDropped as e:
-        mt, ft = ctx.prog.func(tokenizer(ctx.prog))
-        ctx.count(1)
-        ctx.finding("starfileio.Token.tokenize", e.node, "the tokenizer does not see every line of the text: the split is sliced, so a last line "
-                    "without a final line break (files written by other programs, texts held in memory) is silently dropped", e.node, mt)
-        return
-    ctx.touched("starfileio.Token.tokenize", WR)
+    prog = ctx.prog
+    c, mt, ft = reader_constants(prog)
+    ctx.touched(tokenizer(prog), WR)
     ctx.count(1, {"tokenizer constants": c})
     # labels are returned in the order they stand in the file (a trailing `#n` is a comment, not a position)
     mp_, fp_ = ctx.prog.func("starfileio.Token.parse_columns")
@@ -228,26 +238,6 @@ def o22(ctx):
             if _reorders(st.value):
                 ctx.finding("starfileio.Token.parse_columns", st, "the column labels are re-ordered after parsing: the k-th label of the header names the "
                             "k-th entry of every data row, whatever number its trailing comment carries", st, mp_)
-    # the tokenizer classifies a character sequence in two places (when a separator ends it, when the line ends it): both copies must cut the
-    # same token text, and the label handed on by parse_column must be that text minus exactly the property character
-    src_ = lambda n: " ".join(ast.unparse(n).split())
-    cuts = {}
-    for n in ast.walk(ft):
-        if isinstance(n, ast.Call) and src_(n.func).split(".")[-1] == "Token" and len(n.args) >= 2 and isinstance(n.args[0], ast.Attribute):
-            kind, val = n.args[0].attr, n.args[1]
-            if kind in ("PROPERTY", "LOOP", "LITERAL"):
-                if not (isinstance(val, ast.Subscript) and isinstance(val.slice, ast.Slice) and val.slice.step is None):
-                    raise Unsupported(f"text of a {kind} token is not a slice of the line", n)
-                cuts.setdefault(kind, []).append((src_(val.value), src_(val.slice.lower) if val.slice.lower is not None else "", n))
-    for kind, sites in cuts.items():
-        ctx.count(1, {"token kind": kind, "copies of the classification": len(sites), "token text starts at": sorted({s_[1] for s_ in sites})})
-        if len({(s_[0], s_[1]) for s_ in sites}) > 1:
-            ctx.finding("starfileio.Token.tokenize", sites[-1][2], f"the copies of the {kind} classification cut different token texts (start "
-                        f"{sorted({s_[1] for s_ in sites})}): a sequence that ends its line is tokenised differently from one followed by a blank or "
-                        "a comment (un-numbered labels, labels of STOPGAP blocks)", sites[-1][2], mt)
-    if len(cuts.get("PROPERTY", [])) < 2:
-        raise Unsupported("the two classification sites of the tokenizer not found", ft)
-    _token_labels(ctx, c, cuts, ft, mt, src_)
     # reader and writer open the file with the same text encoding
     mrd, frd = ctx.prog.func("starfileio.Starfile.read")
     opens = {}
@@ -263,41 +253,20 @@ def o22(ctx):
         ctx.finding("starfileio.Starfile.read", opens["read"][1], f"the file is read with encoding {opens['read'][0]} but written with "
                     f"{opens['write'][0]}: text values with non-ASCII characters (paths, units) are written correctly and read back garbled",
                     opens["read"][1], mrd)
-    # a token carries the characters it was cut from: Token.__init__ stores its value argument as it is
-    mi, fi = ctx.prog.func("starfileio.Token.__init__")
-    ctx.touched("starfileio.Token.__init__")
-    vparam = fi.args.args[2].arg if len(fi.args.args) > 2 else None
-    sets = [n for n in ast.walk(fi) if isinstance(n, ast.Assign) and any(isinstance(t, ast.Attribute) and t.attr == "value" for t in n.targets)]
-    rebinding = [n for n in ast.walk(fi) if isinstance(n, (ast.Assign, ast.AugAssign)) and any(
-        isinstance(t, ast.Name) and t.id == vparam for t in (n.targets if isinstance(n, ast.Assign) else [n.target]))]
-    ctx.count(1)
-    if vparam is None or len(sets) != 1 or not (isinstance(sets[0].value, ast.Name) and sets[0].value.id == vparam) or rebinding:
-        bad = (rebinding or sets or [fi])[0]
-        ctx.finding("starfileio.Token.__init__", bad, "a token must keep the text it was cut from unchanged: text values (quoted names, "
-                    "values with leading or trailing characters) are otherwise altered on read while the file is intact", bad, mi)
-    # the text the writer produces (its constant pieces plus the lines of two sample rows; see O2.5 for how it is obtained), tokenised
-    # with the reader's own constants, must come out as: [comments] specifier LITERAL, LOOP, one PROPERTY per column (each followed by its
+    # the text the writer produces (its constant pieces plus the lines of two sample rows; see O2.5 for how it is obtained), cut by the
+    # reader's own tokenizer, must come out as: [comments] specifier LITERAL, LOOP, one PROPERTY per column (each followed by its
     # numbering COMMENT when numbered), then one LITERAL per cell
     m, fn = ctx.prog.func(WR)
     COLS = ["rlnCoordinateX", "rlnImageName", "rlnClassNumber"]
     for number_columns, spec_, comments in ((True, "data_particles", None), (False, "data_particles", None), (True, "data_stopgap_motivelist", None),
                                            (True, "data_particles", Seq([Seq([K("written by a test")], "list")], "list"))):
-        pieces = _run_writer(ctx, WR, [(spec_, COLS)], number_columns, comments)
-        var = [p_ for p_ in pieces if not p_[0]]
-        if len(var) != 1:
-            raise Unsupported(f"Starfile.write: expected one row line depending on the cells, found {len(var)} variable pieces", fn)
-        k_ = pieces.index(var[0])
-        rows = ""
-        for cells in ((1.5, "tomo_a", 3), (-20.25, "TS_01/rec_001.mrc", 12)):
-            try:
-                ln = tm.evaluate(var[0][1], dict(zip([f"cell0:{x}" for x in COLS], cells)))
-            except tm.EvalError as e:
-                raise Unsupported(f"row line of Starfile.write uses an operation the term evaluator does not interpret: {e}", var[0][2])
-            if not isinstance(ln, str):
-                raise Unsupported("row line of Starfile.write is not a string expression", var[0][2])
-            rows += ln
-        text = "".join(p_[1] for p_ in pieces[:k_]) + rows + "".join(p_[1] for p_ in pieces[k_ + 1:])
-        toks = [t for t in model_tokenize(text, c) if t[0] != "NEWLINE"]
+        text, node = _written_text(ctx, [(spec_, COLS)], number_columns, comments, [((1.5, "tomo_a", 3), (-20.25, "TS_01/rec_001.mrc", 12))])
+        toks = _reading_order(prog, text)
+        if isinstance(toks, tuple):
+            ctx.count(1)
+            ctx.finding(WR, node, f"the text written for a block is rejected by the tokenizer (raise at line {toks[1]})", node, m, text=text[:200])
+            continue
+        toks = [t for t in toks if t[0] != "NEWLINE"]
         numbered = number_columns and "stopgap" not in spec_
         want = ([("COMMENT", "written by a test")] if comments is not None else []) + [("LITERAL", spec_), ("LOOP", c["loop"])]
         for i_, name in enumerate(COLS, 1):
@@ -305,29 +274,18 @@ def o22(ctx):
             if numbered:
                 want.append(("COMMENT", str(i_)))
         want += [("LITERAL", None)] * 6
-        ctx.count(1, {"number_columns": number_columns, "block": spec_, "model tokens": toks[:10]})
+        ctx.count(8, {"number_columns": number_columns, "block": spec_, "tokens": toks[:10]})
         same = len(toks) == len(want) and all(t[0] == w[0] and (w[1] is None or t[1] == w[1]) for t, w in zip(toks, want))
         if not same:
             k_bad = next((i_ for i_, (t, w) in enumerate(zip(toks, want)) if not (t[0] == w[0] and (w[1] is None or t[1] == w[1]))), min(len(toks), len(want)))
-            ctx.finding(WR, var[0][2], f"the text written for a block ({'numbered' if numbered else 'un-numbered'} labels) is not tokenised by the reader's "
-                        f"constants into specifier, {c['loop']!r}, labels and one literal per cell: token {k_bad} is "
-                        f"{toks[k_bad] if k_bad < len(toks) else None}, expected {want[k_bad] if k_bad < len(want) else 'end of text'}", var[0][2], m,
+            ctx.finding(WR, node, f"the text written for a block ({'numbered' if numbered else 'un-numbered'} labels) is not cut by the reader's "
+                        f"tokenizer into specifier, {c['loop']!r}, labels and one literal per cell: token {k_bad} is "
+                        f"{toks[k_bad] if k_bad < len(toks) else None}, expected {want[k_bad] if k_bad < len(want) else 'end of text'}", node, m,
                         text=text[:200])
         lines_ = text.split(c["linesep"])
         ctx.count(1)
         if not any(ln.strip() == c["loop"] for ln in lines_):
-            ctx.finding(WR, var[0][2], "the loop keyword must stand on a line of its own", var[0][2], m)
-    # queue discipline of the token list: reversed once, consumed from the end
-    rev = [n for n in ast.walk(ft) if isinstance(n, ast.Subscript) and ast.unparse(n.slice) == "::-1"] + \
-          [n for n in ast.walk(ft) if isinstance(n, ast.Call) and ((isinstance(n.func, ast.Attribute) and n.func.attr == "reverse")
-                                                                    or (isinstance(n.func, ast.Name) and n.func.id == "reversed"))]
-    mc, fc = ctx.prog.func("starfileio.Token.consume")
-    pops = [n for n in ast.walk(fc) if isinstance(n, ast.Call) and isinstance(n.func, ast.Attribute) and n.func.attr == "pop"
-            and not n.args]
-    ctx.count(1, {"token queue": "tokenize returns tokens[::-1]; consume pops from the end"})
-    if len(rev) != 1 or len(pops) != 1:
-        ctx.finding("starfileio.Token.tokenize", "token queue discipline", "the token list must be reversed exactly once by the "
-                    "tokenizer and consumed with pop() from the end (first token first)", ft, mt)
+            ctx.finding(WR, node, "the loop keyword must stand on a line of its own", node, m)
 
 
 # ---------------------------------------------------------------------------------------------- writer semantics
@@ -444,10 +402,7 @@ def _run_writer(ctx, q, blocks, number_columns, comments, precision=None):
 def writer_text(ctx, q, m, fn):
     import re as _re
     COLS = ["txt", "flt", "num"]
-    try:
-        rc, _, _ = reader_constants(ctx.prog)
-    except (LinesDropped, CommentWeakened):
-        rc = {"property": "_", "loop": "loop_", "comment": "#", "linesep": "\n"}  # reported by O2.2
+    rc, _, _ = reader_constants(ctx.prog)
     for number_columns in (True, False):
         for spec_ in ("data_particles", "data_stopgap_motivelist"):
             for comments in (None, Seq([Seq([K("first remark"), K("second")], "list")], "list")):
@@ -698,6 +653,7 @@ def o24(ctx):
 def _obligations():
     return [
         Obligation("O2.5", "writer text: header parses into specifier / loop_ / labels in column order (numbered iff asked and not STOPGAP), a row's line reads back to its cells", o25, floor=200),
+        Obligation("O2.6", "the reader followed on literal texts: tokens of every probe text, blocks / labels / rows / comments of every probe file, block selection, written text read back", o26, floor=230),
         Obligation("O2.1", "library calls on the read/write paths exist in the installed pandas with these keywords/options", o21, floor=3),
         Obligation("O2.2", "writer output templates are tokenised by the reader's constants into the expected token roles", o22, floor=8),
         Obligation("O2.3", "writer: tables rounded to float_precision (default 6) and stored back, block lists not permuted, rows taken by position", o23, floor=3),
